@@ -210,7 +210,8 @@ def write_file(fc, path):
             w.close()
     out = {"ctor": None, "outcomes": outcomes, "counters": counters}
     if fc.get("analysis"):
-        exp = write_analysis(fc["analysis"], path)
+        exp, plan = write_analysis(fc["analysis"], path)
+        fc["_aplan"] = plan          # derived deterministically from the spec and the number of events
         if exp is not None:
             out["analysis_expected"] = exp
     return out
@@ -252,12 +253,17 @@ def write_analysis(spec, path):
             ds[...] = np.array(rows)
         for ev, start, ln in entries:
             w.add_analysis_indices(ANALYSIS_NAME, ev, start, ln)
+    plan = {"rows": [[int(x) for x in row] for row in rows], "entries": entries}
     if not entries:
-        return None            # no event refers to the dataset: it is not event-indexed at all
+        return None, plan      # no event refers to the dataset: it is not event-indexed at all
     expected = [[] for _ in range(n)]
     for ev, start, ln in entries:
         expected[ev] = [[int(x) for x in row] for row in rows[start:start + ln]]
-    return expected
+    return expected, plan
+
+
+def ana_tobs(a):
+    return "NA" if a is None else a
 
 
 def observe_analysis(ev):
@@ -609,8 +615,9 @@ def run_query(q, paths, deep=False, readers=None):
                 it = f[slice(q[3], q[4], q[5])]
             fps, ana = [], []
             for ev in it:
-                fps.append(fp_obs(observe_event(ev, deep=deep)))
-                ana.append(observe_analysis(ev))
+                a = observe_analysis(ev)
+                fps.append(fp_obs(observe_event(ev, deep=deep) + [ana_tobs(a)]))
+                ana.append(a)
             return ["ok", fps, ana]
         if kind == "wf":
             # HDF5Reader.get_waveforms(event_id, antenna_id, waveform_type): one waveform row of one event
@@ -757,7 +764,12 @@ def coq_file(fc):
         if s:
             ops.append("Reopen")
         ops.extend("Add " + coq_add(a) for a in session)
-    return "(mkFile %d %s %s [%s])" % (fc["det"], coq_bool(not fc.get("nodet")), coq_opts(fc["opts"]), "; ".join(ops))
+    aops = []
+    plan = fc.get("_aplan") if fc.get("analysis") else None
+    if plan is not None:
+        aops.append("ACreate [%s]" % "; ".join(zlist(r) for r in plan["rows"]))
+        aops += ["AIndex %s %s %s" % (zl(e), zl(st), zl(ln)) for e, st, ln in plan["entries"]]
+    return "(mkFile %d %s %s [%s] [%s])" % (fc["det"], coq_bool(not fc.get("nodet")), coq_opts(fc["opts"]), "; ".join(ops), "; ".join(aops))
 
 
 def coq_oz(x):
@@ -1074,7 +1086,7 @@ def gen_add(rng, det, tags, p_bad=0.25, maxp=3, maxw=3, p_trig=0.6):
     return a
 
 
-def gen_filecase(rng, nadds, opts=None, det=None, p_bad=0.25, nsessions=None, p_trig=0.6):
+def gen_filecase(rng, nadds, opts=None, det=None, p_bad=0.25, nsessions=None, p_trig=0.6, p_nodet=0.08):
     det = det or rng.choice([1, 2, 2, 3, 4])
     opts = opts or gen_opts(rng)
     tags = Tags(rng)
@@ -1088,7 +1100,10 @@ def gen_filecase(rng, nadds, opts=None, det=None, p_bad=0.25, nsessions=None, p_
     for c in cuts + [nadds]:
         sessions.append(adds[prev:c])
         prev = c
-    return {"det": det, "opts": opts, "sessions": sessions}
+    fc = {"det": det, "opts": opts, "sessions": sessions}
+    if rng.random() < p_nodet:
+        fc["nodet"] = True       # set_detector is never called: every stage that needs the detector raises
+    return fc
 
 
 def all_adds(fc):
@@ -1226,7 +1241,8 @@ def base_fps(rec):
     evs = rec.get("events")
     if not evs or evs[0] != "ok":
         return None
-    return [fp_obs(e) for e in evs[2]]
+    ana = rec.get("analysis_obs") or [None] * len(evs[2])
+    return [fp_obs(e + [ana_tobs(a)]) for e, a in zip(evs[2], ana)]
 
 
 def oracle_query(q, got, recs, fcs):
@@ -1594,6 +1610,8 @@ def _stats(stats, case, impl):
         stats.setdefault("require_trigger_forms", set()).add(json.dumps(o["require_trigger"]))
         stats.setdefault("detector_sizes", set()).add(fc["det"])
         stats["sessions_max"] = max(stats.get("sessions_max", 0), len(fc["sessions"]))
+        if fc.get("nodet"):
+            stats["files_without_detector"] = stats.get("files_without_detector", 0) + 1
         stats["adds_max"] = max(stats.get("adds_max", 0), len(rec["outcomes"]))
         stats["adds"] = stats.get("adds", 0) + len(rec["outcomes"])
         for a, oc in zip(all_adds(fc), rec["outcomes"]):
